@@ -349,7 +349,7 @@ class Worker(threading.Thread):
             self.inflight = None
         elif kind == "r":
             block = bool(op[3])
-            q0 = len(SH._socket_hub._messages.get(key, ()))
+            q0 = len(hub_in_use()._messages.get(key, ()))
             try:
                 msg = sock.recv_structured(block=block) if structured else sock.recv(block=block)
                 m = decode(msg)
@@ -371,7 +371,7 @@ class Worker(threading.Thread):
             if len(op) > 3 and op[3]:
                 # public setter on the LIVE socket; the hub reads the flag at connect time only
                 sock.use_callbacks = not sock.use_callbacks
-            SH._socket_hub.disconnect(sock)
+            hub_in_use().disconnect(sock)
             sock.t_closed = s.clock
             self.res.append(["disconnected", kj])
         else:
@@ -379,6 +379,43 @@ class Worker(threading.Thread):
 
 
 BARRIER = -1
+
+# what `reset_socket_hub()` left behind in the hub that the SOCKETS use (lifecycle across runs in one process)
+RESET_FAILURES = []
+FORCE_CLEAN = True      # after recording a failed reset, empty the hub by hand so that later cases are independent
+
+
+def hub_in_use():
+    """the hub object ThreadSocket instances really talk to (not necessarily the module global)"""
+    return ThreadSocket._SOCKET_HUB
+
+
+def hub_leftovers(h=None):
+    h = h or hub_in_use()
+    left = {}
+    for name in ("_open_sockets", "_remote_sockets", "_recv_callbacks", "_conn_lost_callbacks"):
+        v = getattr(h, name, None)
+        if v:
+            left[name] = sorted(str(k) for k in v)
+    msgs = {str(k): [decode(m) for m in v] for k, v in getattr(h, "_messages", {}).items() if v}
+    if msgs:
+        left["_messages"] = msgs
+    if h._lock.locked():
+        left["_lock"] = "held"
+    return left
+
+
+def reset_and_check(when):
+    """`reset_socket_hub()`, then assert that the hub used by the sockets is empty"""
+    SH.reset_socket_hub()
+    left = hub_leftovers()
+    if left:
+        if len(RESET_FAILURES) < 5:
+            RESET_FAILURES.append({"what": "reset_socket_hub() %s left state in the hub that ThreadSocket uses "
+                                           "(ThreadSocket._SOCKET_HUB is module global: %s)"
+                                           % (when, ThreadSocket._SOCKET_HUB is SH._socket_hub), "leftovers": left})
+        if FORCE_CLEAN:
+            hub_in_use().__init__()
 
 
 def all_lock_lines(path=None):
@@ -404,8 +441,8 @@ class Scheduler:
         self._structured = set(structured_ids)
         SH._SocketHub._CONNECT_SLEEP_TIME = 0
         SH._SocketHub._RECV_SLEEP_TIME = 0
-        SH.reset_socket_hub()
-        self.hub = SH._socket_hub
+        reset_and_check("before a run")
+        self.hub = hub_in_use()
         self.holder = None
         self.workers = [Worker(self, t, p) for t, p in enumerate(progs)]
         for w in self.workers:   # one at a time: run up to the first shared access
@@ -491,7 +528,7 @@ class Scheduler:
         for w in self.workers:
             w.socks.clear()
             w.cur_send = None
-        SH.reset_socket_hub()
+        reset_and_check("after a run")
         return final_queues
 
 
@@ -550,7 +587,7 @@ def _sends_and_incs(sc):
     return incs, sends
 
 
-def run_case(progs, policy, structured_ids=(), max_steps=400):
+def run_case(progs, policy, structured_ids=(), max_steps=400, keep_sockets=None):
     """policy(sched, i, last) -> tid or None (stop). Returns a dict with the schedule actually executed,
     the real snapshots (initial + after every step) and what the oracle needs."""
     ensure_located()
@@ -578,6 +615,8 @@ def run_case(progs, policy, structured_ids=(), max_steps=400):
                       if not w.done and w.cur_nonblock and w.count - w.op_start >= 8]
         workers = sc.workers
         incs, sends = _sends_and_incs(sc)
+        if keep_sockets is not None:
+            keep_sockets.extend(sc.all_socks)     # the caller keeps the sockets of this run alive (no __del__)
     finally:
         final_queues = sc.finish()
     return {"progs": progs, "structured": sorted(structured_ids), "schedule": schedule, "snaps": snaps,
@@ -956,6 +995,7 @@ def worker_coarse(args):
                             c["preempt"], "schedule after the barrier": c["schedule"], "key": f["key"]}})
                     else:
                         summary["n_failures_more"] += 1
+        _report_resets(summary)
     except Stuck as e:
         summary["dist"]["coarse-stuck"] = summary["dist"].get("coarse-stuck", 0) + 1
         summary["error_note"] = "Stuck: %s" % e
@@ -1049,8 +1089,50 @@ def worker_random(args):
         summary["error"] = "TieBroken: %s" % e
     except Exception:
         summary["error"] = traceback.format_exc()
+    _report_resets(summary)
     summary["nontrivial"] = sorted(summary["nontrivial"])
     return summary
+
+
+def _report_resets(summary):
+    for rf in RESET_FAILURES:
+        if len(summary["failures"]) < 8:
+            summary["failures"].append({"what": rf["what"], "kf": None, "input": {"leftovers": rf["leftovers"]}})
+    del RESET_FAILURES[:]
+
+
+def two_run_histories():
+    """lifecycle across runs in ONE process: run 1 leaves an unreceived message and dangling connect markers (no
+    disconnect); `reset_socket_hub()`; run 2 uses the same names. Returns the run-2 cases (judged by the oracle on
+    run 2 alone) and direct failures."""
+    global FORCE_CLEAN
+    fails, cases = [], []
+    run1 = [[("c", 1, 0, 0), ("s", 1, 0, 7), ("s", 1, 0, 8)], [("c", 0, 0, 0), ("r", 0, 0, 0)]]
+    run1cb = [[("c", 1, 0, 0), ("s", 1, 0, 7)], [("c", 0, 0, 1)]]
+    run2s = [[[("c", 1, 0, 0), ("s", 1, 0, 1)], [("c", 0, 0, 0), ("r", 0, 0, 1), ("r", 0, 0, 0)]],
+             [[("c", 1, 0, 0), ("s", 1, 0, 1), ("s", 1, 0, 2)], [("c", 0, 0, 0), ("r", 0, 0, 0), ("r", 0, 0, 0),
+                                                               ("r", 0, 0, 0)]]]
+    FORCE_CLEAN = False     # here the reset under test must do the job alone
+    alive = []              # the sockets of the first runs stay referenced: no garbage-collection driven disconnect
+    try:
+        for r1 in (run1, run1cb):
+            for r2 in run2s:
+                run_case(r1, preemptive_policy({}, []), keep_sockets=alive)   # run 1 (its own oracle is not the point)
+                cases.append(run_case(r2, preemptive_policy({}, [])))         # run 2, same names
+            # run 2 in which the peer never starts: connect must keep waiting
+            run_case(r1, preemptive_policy({}, []), keep_sockets=alive)
+            lonely = [[], [("c", 0, 0, 0)]]
+            c = run_case(lonely, lambda sc, i, last: 1 if i < 30 and sc.enabled(1) else None)
+            if ["connected", [1, 0, 0]] in c["res"][1]:
+                fails.append({"what": "two runs in one process: after reset_socket_hub() a connect returned although "
+                                      "its peer never started in this run (dangling connect marker of the previous "
+                                      "run)", "key": [1, 0, 0], "progs": lonely, "previous_run": r1})
+    finally:
+        FORCE_CLEAN = True
+        hub_in_use().__init__()
+        del alive[:]
+        hub_in_use().__init__()
+    return cases, fails
 
 
 def worker_explore(args):
@@ -1074,6 +1156,7 @@ def worker_explore(args):
             _check_cases(cases, driver, summary, 0)
             summary["pairs_complete" if complete else "pairs_partial"] += 1
         driver.close()
+        _report_resets(summary)
     except TieBroken as e:
         summary["error"] = "TieBroken: %s" % e
     except Exception:
